@@ -177,6 +177,27 @@ pub fn build_cases(w: &World, thorough: bool) -> Vec<Case> {
             }
         }
     }
+    // the last result: `E1 ⏎ ans + E2` (and `_`, comparison, list element) is consistent exactly when
+    // `E1 + E2` is; first statements through plain arithmetic and through generic calls
+    for a in &at {
+        let firsts = [
+            a.clone(),
+            X::Call("dbl", vec![a.clone()]),
+            X::Call("abs", vec![a.clone()]),
+            X::Call("sqrt", vec![X::Call("sq", vec![a.clone()])]),
+            X::Call("same2", vec![a.clone(), a.clone()]),
+            X::Bin('*', Box::new(a.clone()), Box::new(X::Lit("2"))),
+        ];
+        for b in &at {
+            for f in &firsts {
+                let sum = X::Bin('+', Box::new(f.clone()), Box::new(b.clone()));
+                cases.push(Case { code: format!("{}\nans + {}", f.render(), b.render()), expect: inf.infer(&sum), family: "last result" });
+                cases.push(Case { code: format!("{}\n{} - _", f.render(), b.render()), expect: inf.infer(&sum), family: "last result" });
+                let cmp = X::Bin('>', Box::new(f.clone()), Box::new(b.clone()));
+                cases.push(Case { code: format!("{}\nans > {}", f.render(), b.render()), expect: inf.infer(&cmp), family: "last result" });
+            }
+        }
+    }
     // unit and dimension definitions
     for e in l1.iter().take(if thorough { l1.len() } else { 400 }) {
         let te = inf.infer(e);
@@ -364,7 +385,7 @@ pub fn check(rep: &mut Report) {
         }
     }
     rep.set("atomicity_cases", json!(subset.len() * 3));
-    rep.rule = "every expression of depth <= 2 over a collision alphabet of units/variables with + - * / -> ^(rational) unary minus, conditionals, lists and calls of inferred, annotated and generic functions, WITHOUT a well-typedness filter (so every mis-dimensioned variant is present); the same expressions under 6 annotations, as unit and derived-dimension definitions, inside 9 function bodies with every call argument and every (parameter, return) annotation; every rejected depth-1 expression and definition form embedded at every position of a multi-statement input (nothing printed, session observation unchanged, every name the input would define exactly as unknown as before); reference = independent dimensional analysis from the units' run-time definitions; non-trivial = programs the reference rejects".into();
+    rep.rule = "every expression of depth <= 2 over a collision alphabet of units/variables with + - * / -> ^(rational) unary minus, conditionals, lists and calls of inferred, annotated and generic functions, WITHOUT a well-typedness filter (so every mis-dimensioned variant is present); the same expressions under 6 annotations, as unit and derived-dimension definitions, inside 9 function bodies with every call argument and every (parameter, return) annotation; uses of the last result (ans, _) after six first-statement shapes with every atom; every rejected depth-1 expression and definition form embedded at every position of a multi-statement input (nothing printed, session observation unchanged, every name the input would define exactly as unknown as before); reference = independent dimensional analysis from the units' run-time definitions; non-trivial = programs the reference rejects".into();
     rep.assumptions = vec![
         "inputs outside the property's quantifier (polymorphic zero in products/generic arguments, lists as quantities) are classified by the reference and not judged".into(),
         "generic functions are compared at call sites with concrete argument dimensions".into(),
